@@ -1,6 +1,7 @@
 package h
 
 import (
+	"encoding/hex"
 	"bytes"
 	"crypto"
 	"encoding/binary"
@@ -488,7 +489,16 @@ func Ask(h *Handle, q *Query) {
 	}
 	q.Err, q.IDs, q.Bytes = "", nil, nil
 	q.Name, q.Arch, q.FP, q.Digest, q.Nums = nil, nil, nil, nil, nil
+	q.Launch, q.Version, q.HID = nil, nil, nil
 	switch q.Kind {
+	case "header":
+		f := h.F
+		q.Launch, q.Version, q.Arch = []byte(f.LaunchScript()), []byte(f.Version()), []byte(f.PrimaryArch())
+		if id, err := hex.DecodeString(strings.ReplaceAll(f.ID(), "-", "")); err == nil {
+			q.HID = id
+		}
+		q.Nums = []int64{f.CreatedAt().Unix(), f.ModifiedAt().Unix(), f.DescriptorsFree(), f.DescriptorsTotal(),
+			f.DescriptorsOffset(), f.DescriptorsSize(), f.DataOffset(), f.DataSize()}
 	case "meta":
 		d, err := h.F.GetDescriptor(sif.WithID(q.ID))
 		if err != nil {
